@@ -33,6 +33,12 @@ Theorem C07_sum_arrival_order :
   aggregate ASum vals = aggregate ASum vals'.
 Proof. exact sum_arrival_order. Qed.
 
+Theorem C07_min_max_arrival_order :
+  forall op vals vals', op = AMin \/ op = AMax ->
+  all_int (filter (fun v => negb (is_null v)) vals) = true -> Permutation vals vals' ->
+  aggregate op vals = aggregate op vals'.
+Proof. exact min_max_arrival_order. Qed.
+
 Theorem C07_null_inputs_never_matter :
   forall op vals, documented op = true ->
   aggregate op vals = aggregate op (filter (fun v => negb (is_null v)) vals).
